@@ -81,7 +81,7 @@ class AoRace(AoHost):
             Q = hsm.HsmWithQueues
             for n in ("next_rtc", "post_fifo", "scribble"):
                 codes += sched.code_objects_of(vars(Q).get(n) or getattr(hsm.InstrumentedHsmEventProcessor, n))
-            codes += sched.code_objects_of(hsm.append_fifo_to_spy)
+            codes += sched.code_objects_of(*[f for f in (getattr(hsm, "append_fifo_to_spy", None),) if f])
             sched.monitor(list(dict.fromkeys(codes)), "line")
             self._ready = True
 
